@@ -58,6 +58,8 @@ class B:
         return None if x > p else (x < p / 2)
 
     def cont(self, body, name=None):
+        if body and self.r.random() < 0.15:
+            body = body + [("container", self.n("ec"), None, [])]       # a container without children
         return ("container", name or self.n("c"), self.tri(), body)
 
     def lst(self, body, name=None, mn=None, mx=None):
@@ -127,12 +129,13 @@ def compose(rnd):
         m0["includes"].append("m0s1")
         s1["imports"] = list(m0["imports"])
     feats = ["uses_in_uses", "uses_in_augment", "augment_into_uses", "sub_augments", "shorthand_everywhere", "ns_under_list",
-             "augment_chain", "lazy_io", "deviate_attrs", "rpc_choice_input", "augment_via_implicit_case"]
+             "augment_chain", "lazy_io", "deviate_attrs", "rpc_choice_input", "augment_via_implicit_case", "empty_hooks",
+             "empty_hooks"]
     late = ["two_augments_same", "two_augments_modules", "augment_vs_uses", "augment_leaf_target", "augment_missing",
             "dev_missing", "dev_min_nonlist", "dev_add_default_twice", "dev_delete_mismatch", "dev_ns_twice", "dev_bad_type",
             "dev_max_zero", "dup_in_uses", "unknown_type_rpc_input", "choice_dup_after_fix", "sub_dup", "ns_on_input",
             "dev_unknown_kind"]
-    chosen = r.sample(feats, r.randint(2, 5))
+    chosen = list(dict.fromkeys(r.sample(feats, r.randint(2, 5))))
     if r.random() < 0.45:
         chosen += r.sample(late, r.randint(1, 2))
     r.shuffle(chosen)
@@ -282,6 +285,60 @@ def f_augment_via_implicit_case(b, m0, m1, s1):
     src["augments"].append((path(pfx, base + [inner_ch[1]]), [b.leaf(), b.cont([b.shorthand_choice()])]))
     if b.r.random() < 0.5:
         m1["augments"].append((path("x0", base), [b.shorthand_choice()]))
+
+
+def f_empty_hooks(b, m0, m1, s1):
+    """a grouping with directory nodes WITHOUT children (augmentation hooks), used two or three times (same module,
+    submodule, importing module); one instance, or two instances with equally named children, are augmented: the copies
+    must not share their (empty) child map"""
+    r = b.r
+    hooks = []
+    body = []
+    for k in r.sample(["container", "list", "choice", "case", "actin", "actout"], r.randint(2, 5)):
+        if k == "container":
+            h = ("container", b.n("hk"), None, [])
+            st = [h[1]]
+        elif k == "list":
+            h = ("list", b.n("hl"), None, None, None, None, [])
+            st = [h[1]]
+        elif k == "choice":
+            h = ("choice", b.n("hch"), None, None, None, [])
+            st = [h[1]]
+        elif k == "case":
+            cs = ("case", b.n("hcs"), [])
+            h = ("choice", b.n("hch"), None, None, None, [cs])
+            st = [h[1], cs[1]]
+        elif k == "actin":
+            h = ("rpc", True, b.n("hact"), [], None)
+            st = [h[2], "input"]
+        else:
+            h = ("rpc", True, b.n("hact"), None, [])
+            st = [h[2], "output"]
+        for _ in range(r.randint(0, 2)):
+            h = b.cont([h])
+            st = [h[1]] + st
+        body.append(h)
+        hooks.append((st, k))
+    g = b.grouping(body + [b.leaf()])
+    m0["body"].append(g)
+    users = [(m0, g[2], "p0", "m0"), (m0, "p0:" + g[2], "p0", "m0"), (m1, "x0:" + g[2], "p1", "m1")]
+    # (a submodule does not see the groupings of the module it belongs to: FindGrouping starts at the submodule)
+    inst = []
+    for (m, ref, pfx, owner) in r.sample(users, r.randint(2, 3)):
+        c = b.cont([("uses", ref)])
+        m["body"].append(c)
+        inst.append((c[1], owner))
+    # augment one instance (or two, same child name) of one or two hooks, from m1 (imports m0) or from the owner
+    for (st, k) in r.sample(hooks, min(len(hooks), r.randint(1, 2))):
+        targets = r.sample(inst, 2 if r.random() < 0.5 else 1)
+        nm = b.n("aug")
+        for (cname, owner) in targets:
+            if owner == "m0":
+                src, pfx = r.choice([(m0, "p0"), (m1, "x0")])
+            else:
+                src, pfx = m1, "p1"
+            child = ("case", nm, [b.leaf()]) if k == "choice" else ("leaf", nm, r.choice(sg.BUILTINS), None, None, None, None)
+            src["augments"].append((path(pfx, [cname] + st), [child]))
 
 
 def f_rpc_choice_input(b, m0, m1, s1):
